@@ -161,6 +161,38 @@ pub fn drop_or_leak<T>(x: T) {
     }
 }
 
+/// A value that is leaked instead of dropped once an oracle of the
+/// execution has reported a violation (see [`drop_or_leak`]).
+pub struct Leaky<T>(std::mem::ManuallyDrop<T>);
+
+impl<T> Leaky<T> {
+    pub fn new(x: T) -> Self {
+        Self(std::mem::ManuallyDrop::new(x))
+    }
+}
+
+impl<T> std::ops::Deref for Leaky<T> {
+    type Target = T;
+    fn deref(&self) -> &T {
+        &self.0
+    }
+}
+
+impl<T> std::ops::DerefMut for Leaky<T> {
+    fn deref_mut(&mut self) -> &mut T {
+        &mut self.0
+    }
+}
+
+impl<T> Drop for Leaky<T> {
+    fn drop(&mut self) {
+        if !has_violation() {
+            // SAFETY: dropped exactly once, here.
+            unsafe { std::mem::ManuallyDrop::drop(&mut self.0) }
+        }
+    }
+}
+
 pub fn has_violation() -> bool {
     with_ctx(|c| c.found.is_some()).unwrap_or(false)
 }
